@@ -59,6 +59,8 @@ def normalisation_chain(model: Model, token_type: str) -> Tuple[Optional[List[Tu
         return None, f"{len(runs)} paths / {runs[0].kind if runs else ''}"
     r, seen, value, tok = runs[0].value
     arg = seen.get("arg")
+    if not (isinstance(r, Opaque) and r.label == "decoded"):
+        return None, f"the decoded text is post-processed into {describe(r)!r} instead of being returned as is"
     chain: List[Tuple[str, str]] = []
     cur = arg
     while isinstance(cur, Term) and cur.op == "strmeth" and cur.args[1] == "replace":
@@ -103,7 +105,10 @@ def check_normalisation(model: Model, report: Report, rule: str) -> None:
     for ttype, quote in (("SINGLE_QUOTE_STRING", "'"), ("DOUBLE_QUOTE_STRING", '"')):
         chain, why = normalisation_chain(model, ttype)
         if chain is None:
-            report.undecided(rule, site, f"{ttype}: {why}")
+            if why and "post-processed" in why:
+                report.fail(rule, site, f"normalise:{ttype}:post-processed", f"{ttype}: {why}", file=fn.file, line=fn.line)
+            else:
+                report.undecided(rule, site, f"{ttype}: {why}")
             continue
         bad = None
         n = 0
@@ -139,6 +144,7 @@ def check(model: Model, report: Report) -> None:
     report.rule("R09.4", "surrogate ranges: high = D800-DBFF, low = DC00-DFFF")
     report.rule("R09.5", "\\uXXXX structure: truncated / lone low / lone high / high+non-low are rejected; non-surrogates and pairs accepted with the right index; pair arithmetic as a linear form")
     report.rule("R09.6", "every non-surrogate \\uXXXX (U+0000-U+001F included) decodes to that code point; raw characters below U+0020 are rejected; raw characters are copied unchanged; loop advances correctly")
+    report.rule("R09.8", "the decoded text reaches name selectors and string literals unchanged (whole-query and filter token shapes, names/literals with blanks and upper case)")
     report.rule("R09.7", "quote normalisation of single-quoted literals is correct on every body over {\\, ', \", a} up to length 5 (exhaustive, ops are local)")
     report.assumptions += ["A1: str.replace is left-to-right non-overlapping; chr/ord are inverse on 0..0x10FFFF; str.encode() yields one byte < 128 per ASCII character"]
     report.not_decided += ["index bookkeeping outside one generic loop iteration (argued: each iteration starts at a character boundary because every branch advances past what it consumed)"]
@@ -230,6 +236,10 @@ def check(model: Model, report: Report) -> None:
             if good:
                 report.ok("R09.2", site2, f"lexer escape/raw sets for {quote} in {ctx}", detail={"escapes": lx["escapes"].show(), "paths": lx["paths"]})
     check_normalisation(model, report, "R09.7")
+    from . import _shapes
+
+    _shapes.check_query_trees(model, report, "R09.8")
+    _shapes.check_trees(model, report, "R09.8")
     report.touched("parse.Parser._parse_hex_digits", "parse.Parser._decode_hex_char", "parse.Parser._decode_escape_sequence", "parse.Parser._unescape_string", "parse.Parser._string_from_codepoint", "lex.lex_string_factory.<locals>._lex_string")
     report.extra["explanation"] = "C09: decoder tables extracted by abstract interpretation with symbolic characters, linear forms for hex/pair arithmetic, octagon for index/length regions; lexer string state analysed as one generic iteration."
     report.extra["decoder_model"] = {"simple": {k: repr(v) for k, v in dm.simple.items()}, "high": dm.high.show(), "low": dm.low.show(), "raw_rejects": dm.raw_rejects.show(), "escape_rejects": dm.escape_rejects.show()}
